@@ -81,6 +81,9 @@ func (stageSet StageSet) String() string {
 }
 
 func (possi Possibility) String() string {
+	if possi.Substvar {
+		return "${" + possi.Name + "}"
+	}
 	str := possi.Name
 	if possi.Arch != nil {
 		str += ":" + possi.Arch.String()
